@@ -17,6 +17,8 @@ TraceInit ==
     /\ last = [op |-> "none"] /\ pc = "push" /\ dev = {} /\ act = [op |-> "Init"]
 Step == \/ Ev.op = "Push" /\ Push(ToSet(Ev.F)) /\ remote' = SetsOf(Ev.remote, Remotes) /\ last'.pushed = Ev.pushed /\ last'.failed = Ev.failed
         \/ Ev.op = "Fetch" /\ Fetch /\ cache' = SetsOf(Ev.cache, Caches)
+        \* (after the round: the root remote lost its objects, another index is pushed there - judged below, no design step)
+        \/ Ev.op = "PushOther" /\ act' = [op |-> "PushOther"] /\ UNCHANGED <<smap, order, remote, cache, last, pc, dev>>
 Match == Have /\ Step /\ l' = l + 1 /\ UNCHANGED i
 Say(tag, clause) == PrintT(<<tag, "C18", clause, i, l, dev'>>)
 Resync == /\ remote' = IF Ev.op = "Push" THEN SetsOf(Ev.remote, Remotes) ELSE remote
@@ -39,6 +41,9 @@ Judge ==
           IN /\ (Ev.pushed = Cardinality(movedNow) \/ Say("VERDICT", "PushedCountWrong"))
              /\ ((ToSet(Ev.F) = {} => Ev.failed = 0) \/ Say("VERDICT", "FailureReportedWithoutFault")))
     \* after the clean retry every reachable object is in its designated remote
+    \* pushing another index to a remote that lost what an earlier push had delivered uploads every object reachable from
+    \* THAT index - whatever the remote's surviving index remembers about directories it was not asked about
+    /\ (Ev.op = "PushOther" => (Ev.complete \/ Say("VERDICT", "OtherIndexPushIncomplete")))
     /\ ((Ev.op = "Push" /\ pc = "retry" /\ Pushable) => (C18_PushComplete(remote') \/ Say("VERDICT", "RetryDidNotComplete")))
     /\ ((Ev.op = "Fetch" /\ Pushable) =>
           /\ (C18_FetchExact(cache') \/ Say("VERDICT", "FetchNotExact"))
